@@ -264,7 +264,11 @@ Definition honest (content sha : bytes) : response := RPeer (scripted content sh
 Definition id_hash (b : bytes) : bytes := 83%N :: b.
 
 Record jobobs := { o_final : option bytes; o_part : option bytes; o_cnt : list Z;   (* the six counters *)
-                   o_fully : bool; o_cu_failed : bool }.
+                   o_fully : bool; o_cu_failed : bool;
+                   (* the final path as observed INSIDE each fetch of the job, between the last body
+                      byte being handed to the writer and the digest verdict (a crash-prefix state of
+                      C25_final_only_verified); compared by the oracle only *)
+                   o_mid : list (option bytes) }.
 
 Record rcase := { rc_content : bytes;          (* the bytes the manifest entry describes *)
                   rc_sha_ok : bool;            (* manifest sha = digest of rc_content (else a wrong digest) *)
@@ -294,7 +298,7 @@ Fixpoint zlist_eqb (a b : list Z) : bool :=
 
 Definition obs_of (ps : pstate) : jobobs :=
   {| o_final := fs_get (p_fs ps) p_final; o_part := fs_get (p_fs ps) (part_path p_final);
-     o_cnt := cnt_list (p_cnt ps); o_fully := fully_caught_up ps; o_cu_failed := p_cu_failed ps |}.
+     o_cnt := cnt_list (p_cnt ps); o_fully := fully_caught_up ps; o_cu_failed := p_cu_failed ps; o_mid := [] |}.
 
 Definition jobobs_eqb (a b : jobobs) : bool :=
   opt_bytes_eqb (o_final a) (o_final b) && opt_bytes_eqb (o_part a) (o_part b)
@@ -318,8 +322,12 @@ Definition obs_final_correct (c : rcase) (o : jobobs) : bool :=
   | None => false
   end.
 
+Definition bytes_correct (c : rcase) (b : bytes) : bool :=
+  bytes_eqb (id_hash b) (e_sha (rc_entry c)) && (blen b =? rc_size c).
+
 Definition obs_final_good (c : rcase) (o : jobobs) : bool :=
-  match o_final o with None => true | Some _ => obs_final_correct c o end.
+  match o_final o with None => true | Some _ => obs_final_correct c o end
+  && forallb (fun m => match m with None => true | Some b => bytes_correct c b end) (o_mid o).
 
 Definition init_good (c : rcase) : bool :=
   match rc_final0 c with
